@@ -1,8 +1,209 @@
-"""Fail-closed extractor of source facts -> coq/theories/Gen/SourceFacts.v (filled in later)."""
+"""Fail-closed extractor of source facts: parses /repo's current source with `ast` and regenerates
+coq/theories/Gen/SourceFacts.v (rewritten only when its content changes, so `make` stays incremental).
+
+Facts: the Gauss-Lobatto node / weight tables as the exact rational values of the floats in the source;
+the quadrature rule selection of LifetimeModel.get_quad_points_and_weights (limit, node/weight transform,
+the start/middle/end points); the interval-bound expression of UnevenTimeDim.compute_t_bounds; the einsum
+subscripts used by the stock classes; the thresholds of check_stock_balance; the default-tolerance factor of
+check_mass_balance / check_flows.  An unexpected AST shape is reported as a broken tie (never defaulted)."""
+from __future__ import annotations
+
+import ast
 import os
+import re
+from fractions import Fraction
 
 from common import COQ, REPO
 
+OUT = os.path.join(COQ, "theories", "Gen", "SourceFacts.v")
+
+
+class TieBroken(Exception):
+    pass
+
+
+def _num(node):
+    if isinstance(node, ast.Constant) and isinstance(node.value, (int, float)) and not isinstance(node.value, bool):
+        return node.value
+    if isinstance(node, ast.UnaryOp) and isinstance(node.op, ast.USub):
+        return -_num(node.operand)
+    if isinstance(node, ast.UnaryOp) and isinstance(node.op, ast.UAdd):
+        return _num(node.operand)
+    raise TieBroken(f"not a numeric literal: {ast.dump(node)[:80]}")
+
+
+def q(x):
+    fr = Fraction(x)
+    return f"({fr.numerator} # {fr.denominator})"
+
+
+def _find(tree, kind, name):
+    for n in ast.walk(tree):
+        if isinstance(n, kind) and getattr(n, "name", None) == name:
+            return n
+    raise TieBroken(f"{kind.__name__} {name} not found")
+
+
+def _norm(src):
+    return re.sub(r"\s+", " ", src).strip()
+
+
+def gl_tables():
+    tree = ast.parse(open(os.path.join(REPO, "flodym", "gauss_lobatto.py")).read())
+    tabs = {}
+    for node in tree.body:
+        if isinstance(node, ast.Assign) and len(node.targets) == 1 and isinstance(node.targets[0], ast.Name):
+            nm = node.targets[0].id
+            if nm in ("gl_nodes", "gl_weights"):
+                if not isinstance(node.value, ast.Dict):
+                    raise TieBroken(f"{nm} is not a dict literal")
+                d = {}
+                for k, v in zip(node.value.keys, node.value.values):
+                    if not isinstance(v, ast.List):
+                        raise TieBroken(f"{nm}[{ast.dump(k)}] is not a list literal")
+                    d[int(_num(k))] = [_num(e) for e in v.elts]
+                tabs[nm] = d
+    if set(tabs) != {"gl_nodes", "gl_weights"}:
+        raise TieBroken("gl_nodes / gl_weights not both found as module-level dict literals")
+    return tabs
+
+
+QUAD_TEMPLATE = _norm('''
+def get_quad_points_and_weights(self):
+    if self.n_pts_per_interval > LIMIT:
+        raise ValueError(MSG)
+    if self.n_pts_per_interval > 1:
+        nodes = [(x + 1) / 2 for x in gl_nodes[self.n_pts_per_interval]]
+        weights = [w / 2 for w in gl_weights[self.n_pts_per_interval]]
+        return (nodes, weights)
+    elif self.inflow_at == 'start':
+        return ([E0], [1])
+    elif self.inflow_at == 'middle':
+        return ([E1], [1])
+    elif self.inflow_at == 'end':
+        return ([E2], [1])
+''')
+
+
+def quad_rule(tree):
+    fn = _find(tree, ast.FunctionDef, "get_quad_points_and_weights")
+    fn.body = [b for b in fn.body if not (isinstance(b, ast.Expr) and isinstance(b.value, ast.Constant) and isinstance(b.value.value, str))]
+    src = _norm(ast.unparse(fn))
+    pat = re.escape(QUAD_TEMPLATE)
+    pat = pat.replace("LIMIT", r"(?P<limit>\d+)").replace("MSG", r"(?P<msg>'[^']*')")
+    for k in ("E0", "E1", "E2"):
+        pat = pat.replace(k, rf"(?P<{k}>[-0-9.]+)")
+    m = re.fullmatch(pat, src)
+    if not m:
+        raise TieBroken("get_quad_points_and_weights no longer has the expected shape: " + src[:200])
+    return int(m.group("limit")), [float(m.group(k)) for k in ("E0", "E1", "E2")]
+
+
+BOUNDS_TEMPLATE = _norm('''
+def compute_t_bounds(self):
+    middle = (np.array(self.dim.items[:-1]) + np.array(self.dim.items[1:])) / 2.0
+    self._bounds = np.concatenate(([middle[0] - (middle[1] - middle[0])], middle, [middle[-1] + (middle[-1] - middle[-2])]))
+''')
+
+REMAINING_TEMPLATE = _norm('''
+def _remaining_ages(self, m, eta):
+    t = eta * self._t.bounds[m + 1] + (1 - eta) * self._t.bounds[m]
+    return self._tile(self._t.bounds[m + 1:] - t)
+''')
+
+
+def expect_fn(tree, name, template):
+    fn = _find(tree, ast.FunctionDef, name)
+    fn.body = [b for b in fn.body if not (isinstance(b, ast.Expr) and isinstance(b.value, ast.Constant) and isinstance(b.value.value, str))]
+    src = _norm(ast.unparse(fn))
+    if src != template:
+        raise TieBroken(f"{name} no longer has the expected shape: {src[:240]}")
+
+
+def stock_facts():
+    src = open(os.path.join(REPO, "flodym", "stocks.py")).read()
+    tree = ast.parse(src)
+    subs = []
+    for n in ast.walk(tree):
+        if isinstance(n, ast.Call) and isinstance(n.func, ast.Attribute) and n.func.attr == "einsum":
+            if not (n.args and isinstance(n.args[0], ast.Constant) and isinstance(n.args[0].value, str)):
+                raise TieBroken("einsum call in stocks.py without a literal subscript string")
+            subs.append(n.args[0].value)
+    allowed = {"t...,t->t...", "c...,tc...->tc..."}
+    if not subs or set(subs) - allowed:
+        raise TieBroken(f"unexpected einsum subscripts in stocks.py: {sorted(set(subs))}")
+    fn = _find(tree, ast.FunctionDef, "check_stock_balance")
+    thr = []
+    for n in ast.walk(fn):
+        if isinstance(n, ast.Compare) and len(n.ops) == 1 and isinstance(n.ops[0], ast.Gt) and isinstance(n.left, ast.Name) and n.left.id == "balance":
+            thr.append(_num(n.comparators[0]))
+    if len(thr) != 2:
+        raise TieBroken(f"check_stock_balance: expected two 'balance > c' comparisons, found {thr}")
+    return sorted(set(subs)), thr
+
+
+def system_facts():
+    tree = ast.parse(open(os.path.join(REPO, "flodym", "mfa_system.py")).read())
+    factors = []
+    for fname in ("check_mass_balance", "check_flows"):
+        fn = _find(tree, ast.FunctionDef, fname)
+        found = None
+        for n in ast.walk(fn):
+            if isinstance(n, ast.Assign) and isinstance(n.targets[0], ast.Name) and n.targets[0].id == "tolerance":
+                v = n.value
+                if isinstance(v, ast.BinOp) and isinstance(v.op, ast.Mult) and isinstance(v.right, ast.Attribute) and v.right.attr == "_absolute_float_precision":
+                    found = _num(v.left)
+        if found is None:
+            raise TieBroken(f"{fname}: default tolerance is no longer '<factor> * self._absolute_float_precision'")
+        factors.append(found)
+    return factors
+
+
+def build_text():
+    tabs = gl_tables()
+    lt_tree = ast.parse(open(os.path.join(REPO, "flodym", "lifetime_models.py")).read())
+    limit, etas = quad_rule(lt_tree)
+    expect_fn(lt_tree, "compute_t_bounds", BOUNDS_TEMPLATE)
+    expect_fn(lt_tree, "_remaining_ages", REMAINING_TEMPLATE)
+    subs, thr = stock_facts()
+    factors = system_facts()
+    L = []
+    L.append("(* GENERATED by harness/translate.py from /repo's current source — do not edit. *)")
+    L.append("From Coq Require Import List ZArith QArith String.")
+    L.append("Import ListNotations.")
+    L.append("Local Open Scope Q_scope.")
+    for nm in ("gl_nodes", "gl_weights"):
+        rows = []
+        for n in sorted(tabs[nm]):
+            rows.append(f"  ({n}%nat, [{'; '.join(q(x) for x in tabs[nm][n])}])")
+        L.append(f"Definition {nm}_src : list (nat * list Q) :=\n  [\n" + ";\n".join(rows) + "\n  ].")
+    L.append(f"Definition n_pts_limit_src : nat := {limit}%nat.")
+    L.append(f"Definition eta_start_src : Q := {q(etas[0])}.")
+    L.append(f"Definition eta_middle_src : Q := {q(etas[1])}.")
+    L.append(f"Definition eta_end_src : Q := {q(etas[2])}.")
+    L.append("(* node transform (x + 1) / 2, weight transform w / 2, and the bound / age expressions were matched structurally *)")
+    L.append("Definition einsum_subscripts_src : list string := [" + "; ".join('"%s"%%string' % s for s in subs) + "].")
+    L.append(f"Definition stock_balance_raise_threshold_src : Q := {q(max(thr))}.")
+    L.append(f"Definition stock_balance_note_threshold_src : Q := {q(min(thr))}.")
+    L.append(f"Definition mass_balance_tolerance_factor_src : Q := {q(factors[0])}.")
+    L.append(f"Definition check_flows_tolerance_factor_src : Q := {q(factors[1])}.")
+    return "\n".join(L) + "\n"
+
 
 def regenerate():
-    return True, "no facts yet"
+    try:
+        txt = build_text()
+    except TieBroken as e:
+        return False, f"source facts could not be extracted (tie broken): {e}"
+    except Exception as e:  # noqa
+        return False, f"translator failed: {e!r}"
+    os.makedirs(os.path.dirname(OUT), exist_ok=True)
+    old = open(OUT).read() if os.path.exists(OUT) else None
+    if old != txt:
+        with open(OUT, "w") as f:
+            f.write(txt)
+    return True, "SourceFacts.v regenerated (%d bytes%s)" % (len(txt), "" if old != txt else ", unchanged")
+
+
+if __name__ == "__main__":
+    print(regenerate())
